@@ -15,7 +15,7 @@ GNext ==
          THEN \/ \E s \in SlotIds : AlterBlob(s) /\ Rec(Cmd("alterBlob", s, 0, 0, 0, ""))
               \/ \E s \in SlotIds : BackdoorRemove(s) /\ Rec(Cmd("backdoorRemove", s, 0, 0, 0, ""))
               \/ \E s \in SlotIds, v \in {"empty", "garbage", "copy"} : BackdoorAdd(s, v) /\ Rec(Cmd("backdoorAdd", s, 0, 0, 0, v))
-              \/ AlterTag /\ Rec(Cmd("alterTag", 0, 0, 0, 0, ""))
+              \/ \E v \in {"flip", "strip", "truncate", "zero"} : AlterTag /\ Rec(Cmd("alterTag", 0, 0, 0, 0, v))
          ELSE \E s \in SlotIds, kp \in KeyPairs : GetMaster(s, kp) /\ Rec(Cmd("get", s, kp, 0, 0, ""))
 Finish == ~done /\ PrintT(<<"BEH", ToJson(hist)>>) /\ done' = TRUE /\ UNCHANGED vars /\ UNCHANGED hist
 GenInit == Init /\ hist = <<>> /\ done = FALSE
